@@ -80,6 +80,19 @@ pub fn neighbours(p: &Parts, idx: u64) -> Vec<String> {
     out.push(a.to_uri());
     // 2. one more, rotating: other credentials / no credentials / other port / other query / other scheme spelling / other path case
     let mut b = p.clone();
+    let default_port = |scheme: &str| match scheme {
+        "http" => "80",
+        "https" | "ipps" => "443",
+        _ => "631",
+    };
+    // 3. the same target with its default port spelled out / left out (equal "effective" ports, different texts)
+    let mut c = p.clone();
+    c.port = match p.port.as_deref() {
+        None => Some(default_port(&p.scheme).to_string()),
+        Some(x) if x == default_port(&p.scheme) || x == "631" || x == "443" || x == "80" => None,
+        Some(_) => Some(default_port(&p.scheme).to_string()),
+    };
+    out.push(c.to_uri());
     match idx % 6 {
         0 => b.userinfo = Some("other:secret".into()),
         1 => b.userinfo = None,
@@ -124,6 +137,8 @@ pub fn long_path(n: usize) -> String {
     s
 }
 pub const QUERIES: [Option<&str>; 6] = [None, Some(""), Some("TAINTq=1"), Some("u=TAINTa@b:c"), Some("x=1&y=TAINT"), Some("TAINT/with/slash")];
+/// CUPS-style device-URI options and other queries a mapping might be tempted to interpret
+pub const OPTION_QUERIES: [&str; 12] = ["encryption=required", "encryption=always", "Encryption=Required", "encryption=never", "waitjob=false", "waitprinter=false", "version=2.0", "contimeout=30", "snmp=false", "encryption=required&waitjob=false", "x=1&encryption=always", "port=443"];
 
 /// the exhaustive component grid
 pub fn grid() -> Vec<Parts> {
@@ -156,6 +171,21 @@ pub fn grid() -> Vec<Parts> {
                     for q in [None, Some("TAINTq=h")] {
                         for u in [format!("{h}:TAINTsecret"), format!("TAINT{h}"), h.to_string(), format!("x{h}y:TAINT"), "631:TAINT631".to_string(), "us+er:TAINTp+w".to_string(), format!("TAINT:{h}:631")] {
                             v.push(Parts { scheme: s.to_string(), userinfo: Some(u), host: h.to_string(), port: p.map(|x| x.to_string()), path: pa.to_string(), query: q.map(|x| x.to_string()) });
+                        }
+                    }
+                }
+            }
+        }
+    }
+    // queries that read like transport options (they are part of the target, not instructions to the mapping)
+    for s in SCHEMES {
+        for h in ["printer.example.com", "[::1]"] {
+            for p in [None, Some("631"), Some("8631")] {
+                for u in [None, Some("user:TAINTpw")] {
+                    for pa in ["", "/ipp/print"] {
+                        for q in OPTION_QUERIES {
+                            v.push(Parts { scheme: s.to_string(), userinfo: u.map(|x| x.to_string()), host: h.to_string(), port: p.map(|x| x.to_string()), path: pa.to_string(), query: Some(format!("TAINT&{q}")) });
+                            v.push(Parts { scheme: s.to_string(), userinfo: u.map(|x| x.to_string()), host: h.to_string(), port: p.map(|x| x.to_string()), path: pa.to_string(), query: Some(q.to_string()) });
                         }
                     }
                 }
